@@ -4,6 +4,7 @@ import TxdbusModel.Msg.PreFix
 import TxdbusModel.Gen.Message
 import TxdbusModel.Proofs.Msg.GeneralMsg
 import TxdbusModel.Proofs.Msg.GeneralForeign
+import TxdbusModel.Proofs.Msg.GeneralShape
 import TxdbusModel.Proofs.Msg.Forward
 /-!
 # C03 - Every constructible message serialises well-formed and parses back intact
@@ -737,6 +738,23 @@ theorem headerCode_eq_general_encode (le : Bool) (fuel : Nat) (v0 v1 v2 v3 v4 v5
      | .error e => .error e) = marshalHeader Gen.Message.align le v0 v1 v2 v3 v4 v5 hs :=
   marshalHeader_eq_general Gen.Message.align pad_agree gen_alignOK le fuel v0 v1 v2 v3 v4 v5 hs hne
 
+/-- **When HeaderCode's decoder fails with `PyErr.other`, the general decoder LEAVES THE FRAGMENT** (with any other exception
+it fails with the same exception: `headerCode_eq_general_decode`): some header field's variant, at some offset of the
+message, carries a signature that starts with a type code of `dbus_types` and is not exactly one basic type code (a
+container, a variant, or more than one type) - the general decoder goes on into that value.  Never an exhausted loop budget. -/
+theorem headerCode_outside_fragment (le : Bool) (data : Bytes) (fds : Option (List PyVal))
+    (h : unmarshalHeader Gen.Message.align le data fds = .error .other) :
+    ∃ off nsig ch more, unmarshalSignature le (rdAt data off) = .ok (nsig, ch :: more) ∧ Gen.Message.align ch ≠ 0 ∧
+      (more ≠ [] ∨ Basic.ofCode? ch = none) :=
+  unmarshalHeader_other Gen.Message.align gen_alignOK le data fds h
+
+/-- Whatever the general decoder returns for the header signature - on ANY byte string, inside or outside the fragment -
+has the shape `parseMessage` reads (`hval[1]`, `hval[2]`, `hval[5]`, `for code, v in hval[6]`): `headerOfPy` never fails,
+the `PyErr.other` branch of `parseMessageG`'s header reading is dead. -/
+theorem general_result_shape (fuel : Nat) (data : Bytes) (le : Bool) (fds : Option (List PyVal)) (n : Nat) (vs : List PyVal)
+    (h : Code.unmarshal fuel Gen.Message.headerFormat data 0 le fds = .ok (n, vs)) : ∃ hv, headerOfPy n vs = .ok hv :=
+  headerOfPy_general fuel data le fds n vs h
+
 /-- The encoder's fragment contains every header list `_marshal` can build: entries `[code, typed value]` with a value of
 class str / ObjectPath / Signature / Byte / UInt32 (`AllIs hs fs`: each denotes a specification field). -/
 theorem headerCode_encode_fragment (le : Bool) (v0 v1 v2 v3 v4 v5 : PyVal) (hs : List (PyVal × PyVal)) (fs : List Field)
@@ -1115,6 +1133,8 @@ end Txdbus.Msg
 #print axioms Txdbus.Msg.headerCode_eq_general_decode
 #print axioms Txdbus.Msg.headerCode_eq_general_encode
 #print axioms Txdbus.Msg.headerCode_encode_fragment
+#print axioms Txdbus.Msg.headerCode_outside_fragment
+#print axioms Txdbus.Msg.general_result_shape
 #print axioms Txdbus.Msg.construct_general_eq
 #print axioms Txdbus.Msg.parse_general_eq
 #print axioms Txdbus.Msg.parse_general_of_ok
